@@ -181,14 +181,15 @@ def takeDigits : Str → Str × Str
 
 /-! ## strconv -/
 
+def applySign (neg : Bool) (n : Int) : Int := if neg then -n else n
+
 /-- `strconv.ParseInt(s, 10, bits)` -/
 def parseInt (bits : Nat) (s : Str) : Except Err Int :=
   let neg := s.head? = some '-'
   let body := if s.head? = some '-' ∨ s.head? = some '+' then s.tail else s
   if body = [] ∨ !(body.all isDigit) then .error .syntax
   else
-    let n : Int := digitsVal body 0
-    let v : Int := if neg then -n else n
+    let v : Int := applySign neg (digitsVal body 0)
     if v < -(2 ^ (bits - 1) : Int) ∨ v ≥ (2 ^ (bits - 1) : Int) then .error .overflow else .ok v
 
 /-- `strconv.ParseUint(s, 10, bits)` -/
@@ -210,8 +211,7 @@ def parseDec (s : Str) : Except Err Dec :=
   let r2 := if hasDot then (takeDigits r1.tail).2 else r1
   if ip = [] ∧ fp = [] then .error .syntax
   else
-    let mant : Int := digitsVal (ip ++ fp) 0
-    let m : Int := if neg then -mant else mant
+    let m : Int := applySign neg (digitsVal (ip ++ fp) 0)
     match r2 with
     | [] => .ok ⟨m, -(fp.length : Int)⟩
     | e :: r3 =>
@@ -222,7 +222,7 @@ def parseDec (s : Str) : Except Err Dec :=
         else if r4.length > 4 then .error .outside
         else
           let ev : Int := digitsVal r4 0
-          .ok ⟨m, (if eneg then -ev else ev) - (fp.length : Int)⟩
+          .ok ⟨m, applySign eneg ev - (fp.length : Int)⟩
       else .error .syntax
 
 /-- smallest magnitude that `ParseFloat(_, 64)` rounds to ±Inf: 2^1024 − 2^970 -/
@@ -234,18 +234,23 @@ def maxFloat32 : Dec := .ofInt (2 ^ 128 - 2 ^ 104)
 /-- math.MaxFloat64 = 2^1024 − 2^971 -/
 def maxFloat64 : Dec := .ofInt (2 ^ 1024 - 2 ^ 971)
 
-/-- `strconv.ParseFloat(s, bits)`: decimals, `inf`/`infinity` with optional sign, `nan`; hex floats are outside. -/
-def parseFloat (bits : Nat) (s : Str) : Except Err Num :=
+/-- the number a text denotes in `strconv.ParseFloat` syntax, machine limits aside:
+decimals, `inf`/`infinity` with optional sign, `nan`; hex floats are outside the model. -/
+def floatSyntax (s : Str) : Except Err Num :=
   let l := lower s
   if l = "nan".toList then .ok .nan
   else if l = "inf".toList ∨ l = "+inf".toList ∨ l = "infinity".toList ∨ l = "+infinity".toList then .ok .posInf
   else if l = "-inf".toList ∨ l = "-infinity".toList then .ok .negInf
   else if l.take 2 = "0x".toList ∨ l.take 3 = "-0x".toList ∨ l.take 3 = "+0x".toList then .error .outside
-  else
-    match parseDec s with
-    | .error e => .error e
-    | .ok d =>
-      if Dec.le (if bits = 32 then overflow32 else overflow64) d.abs then .error .overflow else .ok (.fin d)
+  else (parseDec s).map .fin
+
+/-- `strconv.ParseFloat(s, bits)`: `floatSyntax` plus the overflow test of the target size -/
+def parseFloat (bits : Nat) (s : Str) : Except Err Num :=
+  match floatSyntax s with
+  | .error e => .error e
+  | .ok (.fin d) =>
+    if Dec.le (if bits = 32 then overflow32 else overflow64) d.abs then .error .overflow else .ok (.fin d)
+  | .ok x => .ok x
 
 /-- `convertTypeFromString(kind, str)` followed by `setMatchedPrimitiveValue` -/
 def convertFromString (k : Kind) (s : Str) : Except Err Val :=
@@ -471,6 +476,9 @@ def validateValueRange (c : Cfg) (o : Option Opts) (v : Val) : Except Err Unit :
       | none => .error .range
       | some x => if rangeRejects c r x then .error .range else .ok ()
 
+/-- the option set of a field without options is the zero `fieldOptions` -/
+def effOpts (o : Option Opts) : Opts := match o with | some o => o | none => {}
+
 def optOptions (o : Option Opts) : List Str := match o with | none => [] | some o => o.options
 def optOptional (o : Option Opts) : Bool := match o with | none => false | some o => o.optional
 def optFromString (o : Option Opts) : Bool := match o with | none => false | some o => o.fromString
@@ -481,7 +489,15 @@ def validateInOptions (o : Option Opts) (text : Str) : Except Err Unit :=
   if optOptions o = [] then .ok ()
   else if (optOptions o).contains text then .ok () else .error .options
 
+/-- `lang.Repr` of a Go bool -/
+def boolText (b : Bool) : Str := if b then "true".toList else "false".toList
+
 /-! ## primitive paths -/
+
+/-- `reflect.Value.OverflowFloat` on a float32 target: MaxFloat32 < |x| ≤ MaxFloat64 -/
+def float32Overflows : Num → Bool
+  | .fin d => Dec.lt maxFloat32 d.abs
+  | _ => false
 
 /-- `processFieldPrimitiveWithJSONNumber`; `k = none` stands for a non-primitive target kind -/
 def jsonNumberPath (c : Cfg) (o : Option Opts) (k : Option Kind) (lit : Str) : Except Err Val :=
@@ -494,12 +510,10 @@ def jsonNumberPath (c : Cfg) (o : Option Opts) (k : Option Kind) (lit : Str) : E
       match k with
       | some (.int b) => (parseInt b lit).map .int
       | some (.uint b) => (parseUint b lit).map .int
-      | some (.float 32) =>
+      | some (.float b) =>
         match parseFloat 64 lit with
         | .error e => .error e
-        | .ok (.fin d) => if Dec.lt maxFloat32 d.abs then .error .overflow else .ok (.flt (.fin d))
-        | .ok x => .ok (.flt x)
-      | some (.float _) => (parseFloat 64 lit).map .flt
+        | .ok x => if b = 32 && float32Overflows x then .error .overflow else .ok (.flt x)
       | _ => .error .mismatch
 
 /-- `processFieldPrimitive` on a primitive target kind -/
@@ -517,7 +531,7 @@ def primNotFromString (c : Cfg) (o : Option Opts) (k : Kind) (j : J) : Except Er
     else .error .mismatch
   | .bool b =>
     if k = .bool then
-      match validateInOptions o (if b then "true".toList else "false".toList) with
+      match validateInOptions o (boolText b) with
       | .error e => .error e
       | .ok () =>
         match validateValueRange c o (.bool b) with
@@ -605,6 +619,12 @@ def fromArrayValue (c : Cfg) (isSlice : Bool) (j : J) : J :=
     | _ => j
   else j
 
+/-- `parseOptionsWithContext` after the tag is parsed: no options stay `nil`, else `toOptionsWithContext` -/
+def resolveOpts (c : Cfg) (po : Option Opts) (key : Str) (m : Obj) : Except Err (Option Opts) :=
+  match po with
+  | none => .ok none
+  | some o => (toOptionsWithContext c o key m).map some
+
 /-- options the model does not follow: `env=` (process environment) and `inherit` (parent lookups) -/
 def optOutside (o : Option Opts) : Bool :=
   match o with
@@ -622,9 +642,7 @@ def fieldCore (c : Cfg) (name : Str) (tag : Option Str) (isSlice : Bool) (m : Ob
     match parseTag name tv with
     | .error e => .error e
     | .ok (key, po) =>
-      match (match po with
-             | none => (.ok none : Except Err (Option Opts))
-             | some o => (toOptionsWithContext c o key m).map some) with
+      match resolveOpts c po key m with
       | .error e => .error e
       | .ok o =>
         if key = "-".toList then .ok z
